@@ -32,18 +32,31 @@ CONSTANTS
     MaxDepth,   \* max path length
     Patterns,   \* set of patterns [anchor, lit] to choose skip lists from
     MaxPat,     \* max number of patterns in the skip list
-    AllowShare  \* BOOLEAN
+    AllowShare, \* BOOLEAN
+    Variant     \* "kaisa": kfac/layers/register.py (Linear / Conv2d by type);
+                \* "gpt": kfac/gpt_neox/preconditioner.py register_modules
+                \*   (ColumnParallelLinear / RowParallelLinear by LOWER-CASED
+                \*   class name, patterns searched in the lower-cased name)
 \* END-CONSTANTS
 
 ClassName(kind) ==
+    IF Variant = "gpt" THEN
+    CASE kind = "colpar" -> <<"c", "o", "l", "u", "m", "n", "p", "a", "r", "a", "l", "l", "e", "l", "l", "i", "n", "e", "a", "r">>
+      [] kind = "rowpar" -> <<"r", "o", "w", "p", "a", "r", "a", "l", "l", "e", "l", "l", "i", "n", "e", "a", "r">>
+      [] kind = "linear" -> <<"l", "i", "n", "e", "a", "r">>
+      [] kind = "act"    -> <<"a", "c", "t">>
+      [] kind = "empty"  -> <<"b", "o", "x">>
+      [] OTHER           -> <<"x">>
+    ELSE
     CASE kind = "linear" -> <<"L", "i", "n", "e", "a", "r">>
       [] kind = "conv"   -> <<"C", "o", "n", "v", "2", "d">>
       [] kind = "linsub" -> <<"M", "y", "L", "i", "n">>
       [] kind = "bn"     -> <<"B", "N">>
       [] kind = "act"    -> <<"A", "c", "t">>
       [] kind = "empty"  -> <<"B", "o", "x">>
-HasParams(kind) == kind \in {"linear", "conv", "linsub", "bn"}
-Supported(kind) == kind \in {"linear", "conv", "linsub"}
+HasParams(kind) == kind \in {"linear", "conv", "linsub", "bn", "colpar", "rowpar"}
+Supported(kind) == IF Variant = "gpt" THEN kind \in {"colpar", "rowpar"}
+                   ELSE kind \in {"linear", "conv", "linsub"}
 
 \* qualified name as a sequence of characters (segments are single characters)
 RECURSIVE QName(_)
